@@ -200,6 +200,20 @@ def search_C05_C06(pid, budget):
             if got != exp:
                 fail(pid, "split", "%s=0 on faint (amplitude 3, about 9.5 dB) windows: regions %r, the windows at or above 0 dB give %r" % (
                     key, got, exp), pattern=pat)
+    # a region that starts on the (shorter) last window, and splitting a region that has a start time of its own
+    from auditok import AudioRegion as _AR
+    n += 1
+    d = synth("AAAA", 10, 2, 1) + synth("A", 10, 2, 1)[:8]
+    for via in ("function", "method", "method-on-a-detection"):
+        if via == "function":
+            regs = list(split(d, sr=1000, sw=2, ch=1, min_dur=0.004, max_dur=0.04, max_silence=0, analysis_window=0.01))
+        else:
+            reg0 = _AR(d, 1000, 2, 1, start=(1.5 if via == "method-on-a-detection" else None))
+            regs = list(reg0.split(min_dur=0.004, max_dur=0.04, max_silence=0, analysis_window=0.01))
+        got = [(round(r.start * 1000), len(r)) for r in regs]
+        if got != [(0, 40), (40, 4)]:
+            fail(pid, "split", "4 active windows + an active partial window, max_dur = 4 windows (%s): regions (start sample, length) %r, "
+                 "expected [(0, 40), (40, 4)] relative to the beginning of the input" % (via, got))
     # lazily read raw input that arrives slowly (named pipe): same regions as the bytes
     n += 1
     d = synth("aAAAAaaAAAaa", 10, 2, 1)
@@ -524,6 +538,38 @@ def search_C10_C19(pid, budget):
     n = 0
     t0 = time.time()
     fmts = ((10, 1, 1), (10, 2, 2), (8000, 2, 1), (11025, 2, 1), (8, 4, 3))
+    # lazily read file and slow standard input under the reader: full blocks, then None on EVERY further call
+    from auditok.io import StdinAudioSource
+    tmpd = tempfile.mkdtemp(prefix="c10-")
+    try:
+        dl = bytes((i * 3 + 1) % 256 for i in range(46))
+        rp = os.path.join(tmpd, "l.raw")
+        open(rp, "wb").write(dl)
+        for hd in (None, 0.3):
+            for what in ("raw-lazy", "stdin-slow"):
+                n += 1
+                old_stdin = sys.stdin
+                try:
+                    if what == "raw-lazy":
+                        r = AudioReader(rp, block_dur=0.5, hop_dur=hd, sr=10, sw=2, ch=1, large_file=True, audio_format="raw")
+                    else:
+                        sys.stdin = slow_stdin(dl)
+                        r = AudioReader("-", block_dur=0.5, hop_dur=hd, sr=10, sw=2, ch=1)
+                    r.open()
+                    try:
+                        got, tail = read_all(r, extra=4)
+                    except Exception as e:  # noqa
+                        fail(pid, "reader", "%s reader (hop_dur=%r): a read raised %s" % (what, hd, type(e).__name__))
+                finally:
+                    sys.stdin = old_stdin
+                exp = expected_blocks(dl, 2, 5, 5 if hd is None else 3)
+                if got != exp or any(t is not None for t in tail):
+                    fail(pid, "reader", "%s reader (hop_dur=%r): blocks of %r bytes then %r; expected %r then None on every further call" % (
+                        what, hd, [len(b) for b in got], tail, [len(b) for b in exp]))
+    finally:
+        for f in os.listdir(tmpd):
+            os.remove(os.path.join(tmpd, f))
+        os.rmdir(tmpd)
     for sr, sw, ch in fmts:
         bps = sw * ch
         for ns in (0, 1, 2, 3, 5, 9, 10, 17, 403):
@@ -663,7 +709,11 @@ def search_C11(pid, budget):
                         pos = 0
                         for sz in seq:
                             exp_n = (ns - pos) if (sz is None or sz < 0) else min(sz, ns - pos)
-                            got = src.read(sz)
+                            try:
+                                got = src.read(sz)
+                            except Exception as e:  # noqa
+                                fail(pid, "source", "%s.read(%r) at sample %d of %d on an open source raised %s" % (
+                                    kind, sz, pos, ns, type(e).__name__), fmt=[sr, sw, ch], nsamples=ns, reads=list(seq))
                             exp = data[pos * bps:(pos + exp_n) * bps] if exp_n > 0 else None
                             if got != exp:
                                 fail(pid, "source", "%s.read(%r) at sample %d returned %r, expected %r" % (
@@ -674,6 +724,22 @@ def search_C11(pid, budget):
                                 fail(pid, "source", "position %r after consuming %d samples" % (src.position, pos),
                                      fmt=[sr, sw, ch], nsamples=ns, reads=list(seq))
                         src.close()
+                # open() on an open, partly consumed source does not move it; a position set before open() is kept
+                if ns >= 4:
+                    n += 1
+                    src = BufferAudioSource(data, sr, sw, ch)
+                    src.open(); src.read(2); src.open()
+                    got = src.read(1)
+                    src.close()
+                    src.position = 3
+                    src.open()
+                    got2 = src.read(1)
+                    src.close()
+                    if got != data[2 * bps:3 * bps] or got2 != data[3 * bps:4 * bps]:
+                        fail(pid, "position", "open() moved the source: after read(2), open() the next sample is %r (expected sample 2); "
+                             "after position = 3, open() it is %r (expected sample 3)" % (
+                                 data.index(got) // bps if got else None, data.index(got2) // bps if got2 else None),
+                             fmt=[sr, sw, ch], nsamples=ns)
                 # close() returns to the start whatever happened to the position while the source was closed
                 if ns >= 3:
                     for first_open in (False, True):
@@ -740,6 +806,43 @@ def search_C18(pid, budget):
     t0 = time.time()
     tmp = tempfile.mkdtemp(prefix="c18-")
     try:
+        # saving over an existing, longer file replaces it
+        for fmt in ("raw", "wav"):
+            n += 1
+            p = os.path.join(tmp, "over." + fmt)
+            AudioRegion(bytes(range(40)), 10, 2, 1).save(p)
+            short = bytes(range(100, 112))
+            AudioRegion(short, 10, 2, 1).save(p)
+            back = load(p, sr=10, sw=2, ch=1)
+            if bytes(back) != short:
+                fail(pid, "save", "a 6-sample region saved over an existing 20-sample %s file reads back as %d bytes, expected 12" % (
+                    fmt, len(bytes(back))))
+        # lazily loaded raw input that arrives in several pieces (named pipe): skip / max_read select the same samples
+        import threading
+        n += 1
+        fdir = tempfile.mkdtemp(prefix="c18f-")
+        fp = os.path.join(fdir, "in.raw")
+        os.mkfifo(fp)
+        whole = bytes((i * 7 + 5) % 256 for i in range(2000))
+
+        def feed():
+            with open(fp, "wb", buffering=0) as f:
+                f.write(whole[:200])
+                time.sleep(0.3)
+                f.write(whole[200:])
+        th = threading.Thread(target=feed, daemon=True)
+        th.start()
+        try:
+            got = bytes(load(fp, skip=25, max_read=30, sr=10, sw=2, ch=1, large_file=True, audio_format="raw"))
+        except Exception as e:  # noqa
+            got = "raised %s" % type(e).__name__
+        th.join(5)
+        os.remove(fp)
+        os.rmdir(fdir)
+        if got != whole[500:1100]:
+            fail(pid, "load", "load(skip=25 s, max_read=30 s, large_file=True) from a raw named pipe fed in two pieces: %s, expected the "
+                 "600 bytes of samples [250, 550)" % (got if isinstance(got, str) else "%d bytes starting at sample %s" % (
+                     len(got), whole.find(got[:8]) // 2 if got else None)))
         for sr, sw, ch in ((10, 2, 1), (16, 1, 2), (8000, 4, 3), (11025, 2, 2)):
             bps = sw * ch
             for ns in (0, 1, 7, 20):
